@@ -101,15 +101,25 @@ def mir_set_scripts(cfg):
 def obligations():
     return [
         MetaNamesOb(),
-        KModelOb('O9.1-set-scripts', 'ufs', 'set_scripts_q', 'Storage::update_filter_scripts (real text): resulting script set = documented replace / upsert / '
+        KModelOb('O9.1-set-scripts-all', 'ufs', 'set_scripts_all_q', 'Storage::update_filter_scripts (real text), command `all`: resulting script set = documented replace / upsert / '
                  'remove with the given numbers; pending matched-block records discarded; MIN_FILTERED <= recorded number of EVERY script still '
                  'registered; empty partial/delete changes nothing; genesis filtered iff a given script starts at 0', ex_ufs,
-                 '<=2 of 3 scripts stored with arbitrary numbers, arbitrary MIN_FILTERED, <=1 pending record, any command with <=1 script (thorough: <=2 incl. duplicates)',
-                 cuts=CUTS, timeout=2400, mem_gb=16, tiers=('quick',), min_covers=3, weight=8),
-        KModelOb('O9.1-set-scripts-t', 'ufs', 'set_scripts_t', 'as O9.1 with <=2 scripts in the command (duplicates included) and <=2 pending records', ex_ufs, '<=2 pending records', cuts=CUTS,
-                 timeout=3300, mem_gb=24, tiers=('thorough',), min_covers=3, weight=9),
+                 '2 script identities (thorough 3), <=2 stored with arbitrary numbers, arbitrary MIN_FILTERED, <=1 pending record, <=1 script in the command (thorough: <=2 incl. duplicates)',
+                 cuts=CUTS, timeout=2400, mem_gb=12, tiers=('quick',), min_covers=1, weight=8, rustflags='--cfg ufs_small'),
+        KModelOb('O9.1-set-scripts-partial', 'ufs', 'set_scripts_partial_q', 'Storage::update_filter_scripts (real text), command `partial`: resulting script set = documented replace / upsert / '
+                 'remove with the given numbers; pending matched-block records discarded; MIN_FILTERED <= recorded number of EVERY script still '
+                 'registered; empty partial/delete changes nothing; genesis filtered iff a given script starts at 0', ex_ufs,
+                 '2 script identities (thorough 3), <=2 stored with arbitrary numbers, arbitrary MIN_FILTERED, <=1 pending record, <=1 script in the command (thorough: <=2 incl. duplicates)',
+                 cuts=CUTS, timeout=2400, mem_gb=12, tiers=('quick',), min_covers=1, weight=8, rustflags='--cfg ufs_small'),
+        KModelOb('O9.1-set-scripts-delete', 'ufs', 'set_scripts_delete_q', 'Storage::update_filter_scripts (real text), command `delete`: resulting script set = documented replace / upsert / '
+                 'remove with the given numbers; pending matched-block records discarded; MIN_FILTERED <= recorded number of EVERY script still '
+                 'registered; empty partial/delete changes nothing; genesis filtered iff a given script starts at 0', ex_ufs,
+                 '2 script identities (thorough 3), <=2 stored with arbitrary numbers, arbitrary MIN_FILTERED, <=1 pending record, <=1 script in the command (thorough: <=2 incl. duplicates)',
+                 cuts=CUTS, timeout=2400, mem_gb=12, tiers=('quick',), min_covers=1, weight=8, rustflags='--cfg ufs_small'),
+        KModelOb('O9.1-set-scripts-t', 'ufs', 'set_scripts_t', 'as O9.1 for an arbitrary command with <=2 scripts (duplicates included), 3 script identities and <=2 pending records', ex_ufs, '<=2 pending records', cuts=CUTS,
+                 timeout=3500, mem_gb=24, tiers=('thorough',), min_covers=1, weight=9),
         KModelOb('O9.2-block-number', 'ufs', 'raise_numbers', 'update_block_number(n) raises recorded numbers below n to exactly n and touches nothing else',
-                 ex_ufs, '<=2 scripts, arbitrary numbers', cuts=CUTS, timeout=1200, mem_gb=10, min_covers=1, weight=3),
+                 ex_ufs, '<=2 scripts, arbitrary numbers', cuts=CUTS, timeout=1200, mem_gb=10, min_covers=1, weight=3, rustflags='--cfg ufs_small'),
         MirOb('O9.3-lock', 'BlockFilterRpcImpl::set_scripts: update_filter_scripts and the in-memory clear happen after matched_blocks().write(), '
               'clear after the store update', r'service\.rs:\d+:\d+: \d+:\d+>::set_scripts\(', mir_set_scripts, src_rel=SERVICE),
     ]
